@@ -87,6 +87,23 @@ class Site:
             self.app.router.remove(r)
         base = self.base
         self.app.route('/f/<name>', ['GET', 'HEAD'], lambda name: static_file(name, root=base))
+        app = self.app
+
+        def twice(name):
+            # a handler that serves, looks at the answer, rewrites (or drops) the Range header through the request object and serves again:
+            # the second answer is the one for the header as it is then
+            rq = app.request
+            first = static_file(name, root=base)
+            fb = getattr(first, 'body', None)
+            if hasattr(fb, 'close'):
+                fb.close()
+            second = rq.headers.get('X-Second-Range')
+            if second == '-':
+                del rq['HTTP_RANGE']
+            else:
+                rq['HTTP_RANGE'] = second
+            return static_file(name, root=base)
+        self.app.route('/twice/<name>', ['GET', 'HEAD'], twice)
         self.files = {}
         self.fracs = fracs
 
@@ -250,8 +267,29 @@ def misc_unit(ctx, unit):
         lens = unit['lens']
         for i in range(unit['n']):
             n = rng.choice(lens)
-            kind = rng.choice(['multi', 'multi', 'near', 'huge', 'ows'])
-            if kind == 'multi':
+            kind = rng.choice(['multi', 'multi', 'near', 'huge', 'ows', 'rewrite'])
+            if kind == 'rewrite':
+                def pick():
+                    t = rng.choice(['fl', 'f', 's', None])
+                    if t is None:
+                        return None
+                    a, b = rng.randint(0, n + 2), rng.randint(0, n + 2)
+                    return ('fl', a, b) if t == 'fl' else (t, a)
+                s1, s2 = pick(), pick()
+                h1 = 'bytes=' + render_spec(s1) if s1 else None
+                h2 = 'bytes=' + render_spec(s2) if s2 else None
+                name, data = site.file(n)
+                hdrs = {'X-Second-Range': h2 if h2 is not None else '-'}
+                if h1 is not None:
+                    hdrs['Range'] = h1
+                for method in ('GET', 'HEAD'):
+                    r = call_app(site.app, make_environ(method, '/twice/' + name, headers=hdrs))
+                    wit = {'unit': {'kind': 'note', 'len': n, 'first_range': h1, 'range_set_by_the_handler': h2, 'method': method}}
+                    exp = expectation(ref_first_range(s2, n)) if s2 else ('full',)
+                    check_response(ctx, r, data, method, h2, exp, wit, f'Range rewritten inside the handler ({h1!r} -> {h2!r})')
+                    ctx.case((n, method, h1, h2, 'rewrite'), nontrivial=True)
+                ctx.count('range_header_rewritten_through_the_request')
+            elif kind == 'multi':
                 specs = []
                 for _ in range(rng.randint(2, 3)):
                     t = rng.choice(['fl', 'f', 's'])
